@@ -979,3 +979,316 @@ Proof.
   intros R RD ND Hin Hne s2 x H cid resp C. subst x.
   destruct (read_isolation _ _ _ _ _ R RD ND t a Hin) as [_ G]. destruct (G _ _ _ _ _ H) as [_ Q]. congruence.
 Qed.
+
+(* ================================================================== 8. restricted provider lists: all three views *)
+(* ---- the stored record is a dictionary (unique keys) ---- *)
+Lemma nodup_copy_request req : forall c, NoDup (keys c) -> NoDup (keys (copy_request req c)).
+Proof.
+  induction req as [|[k v] r IH]; intros c N; cbn [copy_request]; [assumption|].
+  apply IH. destruct (copy_key k c); [now apply nodup_aset|assumption].
+Qed.
+
+Ltac nodup_done :=
+  match goal with
+  | H : DOk _ = DOk _ |- _ => inversion H; subst; clear H
+  end;
+  first [ assumption | now apply nodup_aset | now apply nodup_adel ].
+
+Lemma step_post_logout_nodup req c c' : step_post_logout req c = DOk c' -> NoDup (keys c) -> NoDup (keys c').
+Proof. unfold step_post_logout, lift_res. intros H N. break_match H; nodup_done. Qed.
+Lemma step_redirect_uris_nodup req c c' : step_redirect_uris req c = DOk c' -> NoDup (keys c) -> NoDup (keys c').
+Proof. unfold step_redirect_uris. intros H N. break_match H; nodup_done. Qed.
+Lemma step_request_uris_nodup req c c' : step_request_uris req c = DOk c' -> NoDup (keys c) -> NoDup (keys c').
+Proof. unfold step_request_uris, lift_res. intros H N. break_match H; nodup_done. Qed.
+Lemma step_uri_item_nodup item req c c' : step_uri_item item req c = DOk c' -> NoDup (keys c) -> NoDup (keys c').
+Proof. unfold step_uri_item, lift_res. intros H N. break_match H; nodup_done. Qed.
+Lemma step_sig_alg_nodup cf item req c c' : step_sig_alg cf item req c = DOk c' -> NoDup (keys c) -> NoDup (keys c').
+Proof. unfold step_sig_alg. intros H N. break_match H; nodup_done. Qed.
+
+Lemma nodup_stub c cid o : NoDup (keys (make_stub c cid o)).
+Proof.
+  unfold make_stub, keys. destruct (c_read c), (c_expires_in c) as [dt|]; [destruct (Z.eqb _ _)| |destruct (Z.eqb _ _)|]; cbn;
+    repeat (constructor; [cbn; intros C; repeat (destruct C as [C|C]; [vm_compute in C; discriminate|]); exact C|]);
+    constructor.
+Qed.
+
+(* removing a key never makes another binding appear *)
+Lemma assoc_adel_self {V} k (d : list (pystr * V)) : NoDup (keys d) -> assoc k (adel k d) = None.
+Proof.
+  induction d as [|[k2 v2] r IH]; cbn; intros N; [reflexivity|]. inversion N as [|? ? Hn Nr]; subst.
+  destruct (str_eqb k k2) eqn:E.
+  - apply str_eqb_eq in E. subst k2. now apply assoc_none_notin.
+  - cbn. rewrite E. now apply IH.
+Qed.
+Lemma assoc_adel_some {V} k k' (v : V) d : NoDup (keys d) -> assoc k' (adel k d) = Some v -> assoc k' d = Some v.
+Proof.
+  intros N H. destruct (str_eqb k k') eqn:E.
+  - apply str_eqb_eq in E. subst k'. rewrite assoc_adel_self in H by assumption. discriminate.
+  - apply str_eqb_neq in E. now rewrite assoc_adel_other in H.
+Qed.
+
+(* the key check on the signing algorithms only ever REMOVES the parameter *)
+Lemma step_sig_alg_sub cf item req c c' :
+  step_sig_alg cf item req c = DOk c' -> NoDup (keys c) -> forall k v, assoc k c' = Some v -> assoc k c = Some v.
+Proof.
+  unfold step_sig_alg. intros H N k v A. break_match H;
+    match goal with Hd : DOk _ = DOk _ |- _ => inversion Hd; subst; clear Hd end;
+    first [assumption | eapply assoc_adel_some; eassumption].
+Qed.
+
+(* the keys do_client_registration REWRITES after the plain copy: the URI parameters (none of them negotiated) *)
+Definition touched_uri : list pystr :=
+  [K_post_logout; K_redirect_uris; K_request_uris; K_policy_uri; K_logo_uri; K_tos_uri].
+
+Lemma dcr_nodup c req stub j cinfo :
+  do_client_registration c req stub j = DOk cinfo -> NoDup (keys stub) -> NoDup (keys cinfo).
+Proof.
+  intros H N. apply dcr_inv in H as (c1 & c2 & c3 & c5 & c6 & c7 & c8 & E1 & E2 & E3 & E5 & E6 & E7 & E8 & E9 & _).
+  eapply step_sig_alg_nodup; [exact E9|]. eapply step_sig_alg_nodup; [exact E8|].
+  eapply step_uri_item_nodup; [exact E7|]. eapply step_uri_item_nodup; [exact E6|]. eapply step_uri_item_nodup; [exact E5|].
+  eapply step_request_uris_nodup; [exact E3|]. eapply step_redirect_uris_nodup; [exact E2|].
+  eapply step_post_logout_nodup; [exact E1|]. now apply nodup_copy_request.
+Qed.
+
+Lemma dcr_sub c req stub j cinfo k v :
+  do_client_registration c req stub j = DOk cinfo -> NoDup (keys stub) -> str_in k touched_uri = false ->
+  assoc k cinfo = Some v -> assoc k (copy_request req stub) = Some v.
+Proof.
+  intros H Ns T A. apply dcr_inv in H as (c1 & c2 & c3 & c5 & c6 & c7 & c8 & E1 & E2 & E3 & E5 & E6 & E7 & E8 & E9 & _).
+  assert (N : forall K, In K touched_uri -> k <> K) by (intros K HK; eapply str_in_false_neq; eauto).
+  assert (N0 : NoDup (keys (copy_request req stub))) by now apply nodup_copy_request.
+  pose proof (step_post_logout_nodup _ _ _ E1 N0) as N1. pose proof (step_redirect_uris_nodup _ _ _ E2 N1) as N2.
+  pose proof (step_request_uris_nodup _ _ _ E3 N2) as N3. pose proof (step_uri_item_nodup _ _ _ _ E5 N3) as N5.
+  pose proof (step_uri_item_nodup _ _ _ _ E6 N5) as N6. pose proof (step_uri_item_nodup _ _ _ _ E7 N6) as N7.
+  pose proof (step_sig_alg_nodup _ _ _ _ _ E8 N7) as N8.
+  apply (step_sig_alg_sub _ _ _ _ _ E9 N8) in A. apply (step_sig_alg_sub _ _ _ _ _ E8 N7) in A.
+  rewrite (step_uri_item_frame _ _ _ _ E7) in A by (apply N; cbn; tauto).
+  rewrite (step_uri_item_frame _ _ _ _ E6) in A by (apply N; cbn; tauto).
+  rewrite (step_uri_item_frame _ _ _ _ E5) in A by (apply N; cbn; tauto).
+  rewrite (step_request_uris_frame _ _ _ E3) in A by (apply N; cbn; tauto).
+  rewrite (step_redirect_uris_frame _ _ _ E2) in A by (apply N; cbn; tauto).
+  rewrite (step_post_logout_frame _ _ _ E1) in A by (apply N; cbn; tauto).
+  exact A.
+Qed.
+
+(* a parameter the provider neither assigns itself nor rewrites as a URI: the negotiated metadata lives here *)
+Definition negotiable (k : pystr) : bool :=
+  negb (str_in k reserved_keys) && negb (str_in k ignore_keys) && negb (str_in k touched_uri).
+
+(* a stored record: a dictionary every negotiated parameter of which lies within the provider's list for it *)
+Definition record_within (c : cfg) (cinfo : dict) : Prop :=
+  NoDup (keys cinfo)
+  /\ forall k sup v, assoc k (c_support c) = Some sup -> negotiable k = true -> assoc k cinfo = Some v -> within_support v sup.
+
+Lemma negotiable_inv k : negotiable k = true ->
+  str_in k reserved_keys = false /\ str_in k ignore_keys = false /\ str_in k touched_uri = false.
+Proof.
+  unfold negotiable. intros H. apply andb_prop in H as [H C]. apply andb_prop in H as [A B].
+  repeat split; now apply negb_true_iff.
+Qed.
+
+(* view 1: the client database.  Unlike stored_within_support this includes the two signing algorithms that the
+   key check may remove. *)
+Theorem stored_record_within c st o st' cid resp :
+  NoDup (keys (r_req o)) ->
+  register c st o = (st', OAccepted cid resp) ->
+  exists cinfo, assoc cid (s_cdb st') = Some cinfo /\ response_args c cinfo = Ok resp /\ record_within c cinfo.
+Proof.
+  intros N H. apply register_cases in H.
+  inversion H as [x NA|? x extra P NA EX|d0 d1 req0 cid' cinfo resp' V0 V1 F P D RA]; subst;
+    try (exfalso; eapply NA; reflexivity).
+  exists cinfo. cbn [s_cdb]. split; [apply assoc_aset_same|]. split; [assumption|].
+  pose proof (nodup_stub c cid o) as Ns.
+  split; [eapply dcr_nodup; eauto|].
+  intros k sup v S Ng Hv. apply negotiable_inv in Ng as (R & I & T).
+  apply (dcr_sub _ _ _ _ _ _ _ D Ns T) in Hv.
+  apply request_verify_frame in V0 as (_ & N0 & _). apply request_verify_frame in V1 as (_ & N1 & _).
+  assert (Nf : NoDup (keys req0)) by (eapply nodup_filter_request; eauto; apply nodup_filter; auto).
+  rewrite copy_request_plain in Hv by (try apply nodup_adel; assumption).
+  rewrite stub_lacks in Hv by assumption.
+  destruct (assoc k (adel K_client_id req0)) as [v'|] eqn:A; [|discriminate]. inversion Hv; subst v'.
+  destruct (str_eqb K_client_id k) eqn:E.
+  - apply str_eqb_eq in E. subst k. discriminate.
+  - apply str_eqb_neq in E. rewrite assoc_adel_other in A by assumption.
+    eapply filter_request_within; eauto. apply nodup_filter; auto.
+Qed.
+
+(* ---- view 2: the registration response is a function of the stored record that invents no negotiated value ---- *)
+Lemma assoc_some_in {V} k (v : V) d : assoc k d = Some v -> In k (keys d).
+Proof.
+  induction d as [|[k2 v2] r IH]; cbn; [discriminate|]. destruct (str_eqb k k2) eqn:E.
+  - apply str_eqb_eq in E. subst. auto.
+  - auto.
+Qed.
+Lemma assoc_filter_some {V} (f : pystr * V -> bool) k v (d : list (pystr * V)) :
+  NoDup (keys d) -> assoc k (List.filter f d) = Some v -> assoc k d = Some v.
+Proof.
+  induction d as [|[k2 v2] r IH]; cbn; intros N H; [discriminate|]. inversion N as [|? ? Hn Nr]; subst.
+  destruct (f (k2, v2)); cbn in H.
+  - destruct (str_eqb k k2); [assumption|auto].
+  - specialize (IH Nr H). destruct (str_eqb k k2) eqn:E; [|assumption].
+    apply str_eqb_eq in E. subst k2. exfalso. apply Hn. eapply assoc_some_in; eauto.
+Qed.
+
+Definition comb_keys : list pystr := [K_redirect_uris; K_post_logout; K_request_uris].
+Lemma comb_uri_frame args a :
+  comb_uri args = Ok a -> NoDup (keys args) ->
+  NoDup (keys a) /\ forall k, ~ In k comb_keys -> assoc k a = assoc k args.
+Proof.
+  unfold comb_uri. intros H N.
+  match type of H with bind ?x _ = _ => destruct x as [a1| |] eqn:E1; cbn [bind] in H; try discriminate end.
+  match type of H with bind ?x _ = _ => destruct x as [a2| |] eqn:E2; cbn [bind] in H; try discriminate end.
+  assert (F1 : NoDup (keys a1) /\ forall k, k <> K_redirect_uris -> assoc k a1 = assoc k args).
+  { break_match E1; try (inversion E1; subst; split; [assumption|reflexivity]).
+    all: match type of E1 with bind ?x _ = _ => destruct x eqn:?; cbn [bind] in E1; try discriminate end.
+    all: inversion E1; subst; split; [now apply nodup_aset|intros; apply assoc_aset_other; congruence]. }
+  destruct F1 as [N1 F1].
+  assert (F2 : NoDup (keys a2) /\ forall k, k <> K_post_logout -> assoc k a2 = assoc k a1).
+  { break_match E2; try (inversion E2; subst; split; [assumption|reflexivity]).
+    all: match type of E2 with bind ?x _ = _ => destruct x eqn:?; cbn [bind] in E2; try discriminate end.
+    all: inversion E2; subst; split; [now apply nodup_aset|intros; apply assoc_aset_other; congruence]. }
+  destruct F2 as [N2 F2].
+  assert (F3 : NoDup (keys a) /\ forall k, k <> K_request_uris -> assoc k a = assoc k a2).
+  { break_match H; try (inversion H; subst; split; [assumption|reflexivity]).
+    all: match type of H with bind ?x _ = _ => destruct x eqn:?; cbn [bind] in H; try discriminate end.
+    all: inversion H; subst; split; [now apply nodup_aset|intros; apply assoc_aset_other; congruence]. }
+  destruct F3 as [N3 F3]. split; [assumption|].
+  intros k Hk. rewrite F3, F2, F1; [reflexivity| | |]; intro C; apply Hk; subst k; cbn; auto.
+Qed.
+
+Lemma response_args_sub c cinfo resp k v :
+  response_args c cinfo = Ok resp -> NoDup (keys cinfo) -> ~ In k comb_keys ->
+  assoc k resp = Some v -> assoc k cinfo = Some v.
+Proof.
+  unfold response_args. intros H N Hk A.
+  match type of H with bind ?x _ = _ => destruct x as [a| |] eqn:E; cbn [bind] in H; try discriminate end.
+  inversion H; subst resp. clear H.
+  apply comb_uri_frame in E as [Na Fa]; [|now apply nodup_filter].
+  apply assoc_filter_some in A; [|assumption]. rewrite Fa in A by assumption.
+  eapply assoc_filter_some; eauto.
+Qed.
+
+Lemma negotiable_not_comb k : negotiable k = true -> ~ In k comb_keys.
+Proof.
+  intros H C. apply negotiable_inv in H as (_ & _ & T). apply not_true_iff_false in T. apply T. apply str_in_In.
+  cbn in C. cbn. tauto.
+Qed.
+
+(* whatever the response carries for a negotiated parameter lies within the provider's list *)
+Theorem response_within c cinfo resp k sup v :
+  record_within c cinfo -> response_args c cinfo = Ok resp ->
+  assoc k (c_support c) = Some sup -> negotiable k = true -> assoc k resp = Some v -> within_support v sup.
+Proof.
+  intros [N W] RA S Ng A. eapply W; eauto. eapply response_args_sub; eauto. now apply negotiable_not_comb.
+Qed.
+
+Theorem echoed_within_support c st o st' cid resp k sup v :
+  NoDup (keys (r_req o)) ->
+  register c st o = (st', OAccepted cid resp) ->
+  assoc k (c_support c) = Some sup -> negotiable k = true -> assoc k resp = Some v -> within_support v sup.
+Proof.
+  intros N H S Ng A. destruct (stored_record_within _ _ _ _ _ _ N H) as (cinfo & _ & RA & W).
+  eapply response_within; eauto.
+Qed.
+
+(* ---- view 3: the read endpoint ---- *)
+Lemma record_within_auth_method c cinfo :
+  assoc K_auth_method (c_support c) = None -> record_within c cinfo -> record_within c (set_auth_method cinfo).
+Proof.
+  intros HA [N W].
+  assert (G : forall x, record_within c (aset K_auth_method x cinfo)).
+  { intros x. split; [now apply nodup_aset|]. intros k sup v S Ng A.
+    destruct (str_eqb K_auth_method k) eqn:E.
+    - apply str_eqb_eq in E. subst k. congruence.
+    - apply str_eqb_neq in E. rewrite assoc_aset_other in A by assumption. eauto. }
+  unfold set_auth_method. destruct (assoc K_auth_method cinfo) as [[| | | | |m|]|]; try apply G. destruct m; apply G.
+Qed.
+
+Theorem read_within_support c st hdr q now st' cid resp k sup v :
+  assoc K_auth_method (c_support c) = None ->
+  (forall cinfo, assoc cid (s_cdb st) = Some cinfo -> record_within c cinfo) ->
+  read c st hdr q now = (st', RAnswer cid resp) ->
+  assoc k (c_support c) = Some sup -> negotiable k = true -> assoc k resp = Some v -> within_support v sup.
+Proof.
+  intros HA Inv H S Ng A. apply read_answer_inv in H as (_ & _ & cinfo & C & _ & _ & R).
+  eapply response_within; [|exact R| | |]; eauto. apply record_within_auth_method; auto.
+Qed.
+
+(* ---- histories: no request can bring a value outside the lists into the client database ---- *)
+Definition cdb_within (c : cfg) (st : state) : Prop :=
+  forall cid cinfo, assoc cid (s_cdb st) = Some cinfo -> record_within c cinfo.
+Definition op_wf (o : op) : Prop := match o with OpReg r => NoDup (keys (r_req r)) | OpRead _ _ _ => True end.
+
+Lemma register_within c st o st' x :
+  NoDup (keys (r_req o)) -> cdb_within c st -> register c st o = (st', x) -> cdb_within c st'.
+Proof.
+  intros N Inv H. pose proof H as H0. apply register_cases in H.
+  destruct H as [x _|cid x extra P _ EX|d0 d1 req0 cid cinfo resp V0 V1 F P D RA]; [assumption| |].
+  - unfold cdb_within. cbn [rollback s_cdb set_stub]. apply pick_id_spec in P as [_ P]. apply has_key_false in P.
+    rewrite adel_aset_fresh by assumption. exact Inv.
+  - destruct (stored_record_within _ _ _ _ _ _ N H0) as (cinfo' & A & _ & W).
+    cbn [s_cdb] in A. rewrite assoc_aset_same in A. inversion A; subst cinfo'.
+    intros cid2 ci2. cbn [s_cdb]. destruct (str_eqb cid cid2) eqn:E.
+    + apply str_eqb_eq in E. subst cid2. rewrite assoc_aset_same. intros X. inversion X; subst. assumption.
+    + apply str_eqb_neq in E. rewrite !assoc_aset_other by assumption. apply Inv.
+Qed.
+
+Lemma read_within c st hdr q now st' x :
+  assoc K_auth_method (c_support c) = None -> cdb_within c st -> read c st hdr q now = (st', x) -> cdb_within c st'.
+Proof.
+  intros HA Inv H.
+  assert (G : forall cid cinfo, assoc cid (s_cdb st) = Some cinfo ->
+                cdb_within c (mkSt (aset cid (set_auth_method cinfo) (s_cdb st)) (s_rat st) (s_owners st))).
+  { intros cid cinfo A cid2 ci2. cbn [s_cdb]. destruct (str_eqb cid cid2) eqn:E.
+    - apply str_eqb_eq in E. subst cid2. rewrite assoc_aset_same. intros X. inversion X; subst.
+      apply record_within_auth_method; eauto.
+    - apply str_eqb_neq in E. rewrite assoc_aset_other by assumption. apply Inv. }
+  unfold read in H.
+  repeat match type of H with
+         | context [match ?t with _ => _ end] => destruct t eqn:?
+         end; inversion H; subst; try assumption; eapply G; eauto.
+Qed.
+
+Theorem history_within c ops : forall st st' outs,
+  assoc K_auth_method (c_support c) = None -> Forall op_wf ops -> cdb_within c st ->
+  run c st ops = (st', outs) -> cdb_within c st'.
+Proof.
+  induction ops as [|o r IH]; intros st st' outs HA WF Inv H.
+  - cbn in H. inversion H; subst. assumption.
+  - rewrite run_cons in H. destruct (step c st o) as [s1 x] eqn:S. destruct (run c s1 r) as [s2 xs] eqn:R.
+    inversion H; subst. inversion WF as [|? ? W1 WR]; subst.
+    eapply IH; [assumption|exact WR| |exact R].
+    destruct o as [ro|h q now]; cbn [step] in S.
+    + destruct (register c st ro) as [s y] eqn:E. inversion S; subst. eapply register_within; eauto.
+    + destruct (read c st h q now) as [s y] eqn:E. inversion S; subst. eapply read_within; eauto.
+Qed.
+
+Lemma cdb_within_empty c rat owners : cdb_within c (mkSt [] rat owners).
+Proof. intros cid cinfo H. discriminate. Qed.
+
+(* after any history, whatever the read endpoint answers lies within the lists *)
+Theorem history_read_within c ops st st' outs hdr q now s2 cid resp k sup v :
+  assoc K_auth_method (c_support c) = None -> Forall op_wf ops -> cdb_within c st ->
+  run c st ops = (st', outs) ->
+  read c st' hdr q now = (s2, RAnswer cid resp) ->
+  assoc k (c_support c) = Some sup -> negotiable k = true -> assoc k resp = Some v -> within_support v sup.
+Proof.
+  intros HA WF Inv R H S Ng A. pose proof (history_within _ _ _ _ _ HA WF Inv R) as Inv'.
+  eapply (read_within_support c st' hdr q now s2 cid resp k sup v); eauto.
+Qed.
+
+(* the three encryption-enc parameters are negotiated ones; in particular the default that verify() fills in for an
+   alg-only request is stored only when the provider lists it *)
+Lemma enc_keys_negotiable k : In k enc_keys -> negotiable k = true.
+Proof. intros H. cbn in H. repeat (destruct H as [<-|H]; [vm_compute; reflexivity|]). contradiction. Qed.
+
+Theorem default_enc_only_if_listed c st o st' cid resp k sup :
+  NoDup (keys (r_req o)) ->
+  register c st o = (st', OAccepted cid resp) ->
+  In k enc_keys -> assoc k (c_support c) = Some sup ->
+  forall cinfo, assoc cid (s_cdb st') = Some cinfo -> assoc k cinfo = Some (VStr S_default_enc) -> In S_default_enc sup.
+Proof.
+  intros N H Hk S cinfo C A. destruct (stored_record_within _ _ _ _ _ _ N H) as (cinfo' & C' & _ & _ & W).
+  rewrite C in C'. inversion C'; subst cinfo'.
+  exact (W k sup _ S (enc_keys_negotiable _ Hk) A).
+Qed.
